@@ -60,6 +60,9 @@ def run(ctx):
         if line.startswith("grammar "):
             _, gid, kind = line.split()
             gkind[gid] = kind
+        elif line.startswith("rejected "):
+            gid = line.split()[1]
+            gkind[gid] = "op"
         elif line.startswith("src "):
             gsrc[gid] = line.split(" ", 1)[1].strip()
         elif line.startswith("case "):
@@ -150,11 +153,25 @@ def run(ctx):
                     gram["oracle_fixpoint"] += 1
                 else:
                     nofix.add(g)
+            if kv.get("resolvable") == "false":
+                viol.append((0, "judge", "the generator accepts the grammar of operator table %s although a conflict is left open by its declared precedences (OpTable.resolvable = false)" % g,
+                             {"case": g, "spec": "%s t:" % gsrc.get(g, "?"), "result": kv},
+                             {"clause": "generator-accepts-unresolvable-operator-table", "kind": "op"}, True))
             if kv["opgrammar"] != "true" or kv["terms"] != "true":
                 ctx.oblige("corr:harness-grammar=model-grammar:" + g, False, json.dumps(kv))
             continue
         if ident == "S":
             stats = dict(p.split("=", 1) for p in line.split()[1:])
+            continue
+        if ident == "R":
+            # an operator table the generator refused: it must have a conflict its precedences leave open
+            g = line.split()[1]
+            rkv = dict(p.split("=", 1) for p in line.split()[2:])
+            gram["op_rejected"] = gram.get("op_rejected", 0) + 1
+            if rkv.get("resolvable") == "true":
+                viol.append((0, "judge", "the generator rejects the grammar of operator table %s although its declared precedences and associativities resolve every conflict (OpTable.resolvable)" % g,
+                             {"case": g, "spec": "%s t:" % gsrc.get(g, "?"), "result": rkv},
+                             {"clause": "generator-rejects-resolvable-operator-table", "kind": "op"}, True))
             continue
         if "corr" not in kv:
             continue
@@ -223,7 +240,7 @@ def run(ctx):
                      "coverOK(premise of grammar_cover holds)": gram.get("coverOK", 0), "completeOK(premise of table_complete holds)": gram.get("completeOK", 0),
                      "coverOK_and_completeOK(parser_complete and parser_sound both apply)": gram.get("both_halves", 0),
                      "completeOK_fails(precedence-resolved conflicts, hidden terminal rules)": gram.get("completeOK_fails", 0),
-                     "complete_in_scope(no precedence, covered, or chain/lalr: failing is a violation)": gram.get("complete_in_scope", 0), "with_oracle": gram["oracle"],
+                     "complete_in_scope(no precedence, covered, or chain/lalr: failing is a violation)": gram.get("complete_in_scope", 0), "operator_tables_rejected_by_generator(all must be unresolvable)": gram.get("op_rejected", 0), "with_oracle": gram["oracle"],
                      "oracle_fixpoint": gram["oracle_fixpoint"],
                      "states_min_med_max": [st[0], st[len(st) // 2], st[-1]] if st else [],
                      "language_sizes_up_to_L": sorted(gram["lang_sizes"])[-8:], "generator": stats},
